@@ -461,6 +461,9 @@ def call_method(interp, recv, name, args, kwargs):
         return concat(interp, recv, args[0])
     if name == '__contains__':
         return wrap(z3.Contains(norm(interp, t), _sn(interp, args[0])))
+    if name == 'splitlines' and (list(args) == [True] or (not args and kwargs == {'keepends': True})):
+        from . import textio
+        return textio.splitlines_keepends(interp, recv)
     if name in ('splitlines',):
         raise Unsupported('str.splitlines on symbolic string (give the function a contract / model)')
     if name in ('removeprefix', 'removesuffix'):
